@@ -83,6 +83,16 @@ F15Signature(reg, ty, sat) ==
     LET e == OfType(reg, ty) IN
     \E i, j \in DOMAIN e : i < j /\ e[i][2] \in sat /\ e[j][2] = "U"
 
+(***************************************************************************)
+(* What the built-in constraints MEAN (plinio/cost/pattern.py, README):    *)
+(* depthwise = in_channels, out_channels and groups all equal; "3x3" =     *)
+(* every kernel dimension is 3.  d = [cin, cout, groups, k (sequence),     *)
+(* usr (BOOLEAN: the user constraint of the harness)].                     *)
+(***************************************************************************)
+RefSat(d) == (IF d.cin = d.groups /\ d.cout = d.groups THEN {"dw"} ELSE {})
+             \cup (IF \A i \in DOMAIN d.k : d.k[i] = 3 THEN {"k3"} ELSE {})
+             \cup (IF d.usr THEN {"usr"} ELSE {})
+
 \* permutations of a registration history (for order independence)
 Perms(reg) == {p \in ArrangementsOf(Range(reg), Len(reg)) : Len(p) = Len(reg)}
 =============================================================================
